@@ -26,7 +26,7 @@ def run(tier, seed):
     allcases = r["exports"] + r2["exports"]
     n_plain = sum(1 for e in allcases if e.get("k") == "c02" and "*" not in e["rule"] and "^" not in e["rule"])
     # every plain pattern and hand-written rule once, then random rule sets
-    n = n_plain + 100 + (1200 if tier == "quick" else 8000)
+    n = n_plain + 100 + (1200 if tier == "quick" else 40000)
     summ = json.loads(vlib.run_harness(["record", "c20", tr, str(seed), str(n), cases], timeout=3000))
     vlib.require(summ["counters"]["plain_c02_patterns"] > 50, "no plain patterns for the implication clause")
     rt, done, mism = vlib.trace_validate("Trace_C20", tr, wd, "trace", heap="8g")
